@@ -433,6 +433,21 @@ def run(ctx: Ctx) -> int:
     check_global_state_restore(ctx, "C19.d")
 
     ctx.trusted_base += ["os.access / os.path.isfile / os.path.isdir do not raise for missing paths; os.stat does"]
+    # ---------------- C19.a (encodability probe) -------------------------------------------------------------------------
+    # os.fsencode raises UnicodeEncodeError for text the file system encoding cannot hold; the handler that turns it into
+    # PathError must name that class (or a base of it)
+    from .util import enclosing_trys as _et19, handler_type_names as _htn19
+
+    for c in [c for c in calls_in(init) if call_name(c) == "os.fsencode"]:
+        names = set()
+        for t_, part in _et19(c):
+            if part == "body":
+                for h in t_.handlers:
+                    if any(isinstance(r, ast.Raise) and r.exc is not None and "PathError" in ast.unparse(r.exc) for r in ast.walk(h)):
+                        names |= {n.split(".")[-1] for n in _htn19(h)}
+        ok = bool(names & {"UnicodeEncodeError", "UnicodeError", "ValueError", "Exception"})
+        ctx.oblige("C19.a", ok, c, "text the file system cannot encode is reported as PathError" if ok else f"the handler around os.fsencode catches {sorted(names) or 'nothing'}: UnicodeEncodeError for a path such as 'out_\\ud800.txt' (a JSON config can produce it) leaves Path.__init__ raw instead of the documented PathError", fn=init, construct="fsencode failure converted")
+
     return ctx.finish(
         explanation=(
             "Internal consistency of the mode language and scoping of directory changes: every os.stat in Path.__init__ is under a positive existence test (CFG control dependence + "
